@@ -12,7 +12,7 @@ SPEC = dict(
          "and 4 slots; ring counters started at 0, 1, 7, 2^31-1 and just below 2^32 (ticket wrap); callers that stop waiting and "
          "drain in the background; a scripted buffered-writer scenario (D15: a batch larger than the write buffer); flowbuffer puts with contexts cancelled while waiting for a token. Every recorded trace is "
          "replayed through the LTS (each event must be an enabled transition with the recorded outcome / item; at the end all "
-         "slots are free, every command was dequeued and completed once and every caller holds its own result). "
+         "slots are free, every command was dequeued and completed once and every caller holds its own result); the (one, multi, resps) returned by NextWriteCmd / WaitForWrite / NextResultCh are recorded (resps identified by a per-caller tag) and must be the putter's own, in the model replay and by a direct oracle, with mixed PutOne / PutMulti callers re-using slots. "
          "Non-trivial = more than the sentinel command; distinct by label sequence.",
     trusted=["Go runtime semantics of sync.Mutex / sync.Cond / channels (modelled: Wait enqueues and unlocks atomically, Signal "
              "wakes one waiter, Broadcast all, no spurious wake-ups; buffered channels are FIFOs)",
@@ -26,7 +26,7 @@ SPEC = dict(
 MANIFEST = dict(
     text="Proof of the ring and flow-buffer LTS for all schedules, any number of callers and any queue size: every command is handed "
          "to the writer exactly once, the writer dequeues in position order and the reader completes in the writer's order, the "
-         "result channel is handed to exactly the caller that enqueued the command and a slot cannot be reused before its result is "
+         "result channel and the stored payload (one / multi / resps) are handed over for exactly the caller that enqueued the command and a slot cannot be reused before its result is "
          "delivered (lock tenure), the uint32 ticket wrap is harmless, parked putters / the parked writer always have a pending "
          "waker (lost-wake-up freedom L1, L2), and no reachable state with pending work is stuck; for the flow buffer token "
          "conservation, FIFO order, non-blocking sends and own results. Safety, lost-wake-up freedom and non-stuckness are proved; "
